@@ -125,6 +125,46 @@ def replay_mtl(item) -> dict:
     return {"fails": fails, "runs": runs}
 
 
+def hostile_cases(ctx: Ctx) -> None:
+    """Programs that torch.vmap cannot differentiate (data-dependent control flow in a custom backward):
+    torch.autograd handles them, so must torchjd whenever differentiation is sequential by contract
+    (a single row, or parallel_chunk_size = 1 - see C07).  Values compared with a twin by equality."""
+    from torchjd import backward, mtl_backward
+    from torchjd.aggregation import Constant
+    from ..autojac_obs import VmapHostile
+    for m in (1, 3):
+        for k in ((None, 1, 2, 5) if m == 1 else (1,)):
+            for fn in ("backward", "mtl"):
+                for dtype in (torch.float64, torch.float32):
+                    ctx.evaluations += 1
+                    w = torch.tensor([float(r - 1) or 2.0 for r in range(m)], dtype=dtype)
+                    M = torch.tensor([[1.0, -2.0, 3.0], [0.0, 1.0, 1.0], [2.0, 0.0, -1.0]][:m], dtype=dtype)
+
+                    def build():
+                        x = torch.tensor([1.0, 2.0, -1.0], dtype=dtype, requires_grad=True)
+                        f = VmapHostile.apply(x) * 1.0
+                        return x, f
+                    x, f = build()
+                    xt, ft = build()
+                    key = f"hostile:{fn}:m={m}:k={k}:{dtype}"
+                    try:
+                        if fn == "backward":
+                            backward([M @ f], Constant(w), inputs=[x], parallel_chunk_size=k)
+                            torch.autograd.backward([M @ ft], grad_tensors=[w], inputs=[xt])
+                        else:
+                            mtl_backward([(M[i] * f).sum() for i in range(m)], f, Constant(w), tasks_params=[[] for _ in range(m)],
+                                         shared_params=[x], parallel_chunk_size=k)
+                            torch.autograd.backward([sum(w[i] * (M[i] * ft).sum() for i in range(m))], inputs=[xt])
+                    except Exception as e:                      # noqa: BLE001
+                        ctx.violation(key, f"{fn} with {m} row(s), parallel_chunk_size={k}, on a program vmap cannot handle raised "
+                                           f"{type(e).__name__} where torch.autograd differentiates it", {"fn": "hostile", "key": key})
+                        continue
+                    if x.grad is None or not torch.equal(x.grad, xt.grad):
+                        ctx.violation(key, f"{fn} ({m} rows, k={k}) on a vmap-hostile program: {x.grad} vs torch.autograd {xt.grad}",
+                                      {"fn": "hostile", "key": key})
+                    ctx.nontrivial(key)
+
+
 def run(ctx: Ctx, replay: str | None) -> None:
     ctx.rule = ("one case = a scenario exported by TLC from Backward.tla / MtlBackward.tla, executed by torchjd with "
                 "Constant(-1,0,1,..), Sum and Mean and by torch.autograd on a twin graph; non-trivial = the Jacobian has "
@@ -134,6 +174,10 @@ def run(ctx: Ctx, replay: str | None) -> None:
     if replay:
         rec = json.load(open(replay))
         p = rec["payload"]
+        if p["fn"] == "hostile":
+            hostile_cases(ctx)
+            ctx.violations = [v for v in ctx.violations if v["key"] == rec["key"]]
+            return
         fn = replay_mtl if p["fn"] == "mtl" else replay_backward
         for f in fn((p["scenario"], p["seed"], p["idx"]))["fails"]:
             ctx.violation(rec["key"], f["what"], p)
@@ -171,5 +215,6 @@ def run(ctx: Ctx, replay: str | None) -> None:
                 ctx.violation(f"{f['kind']}:{key}", f"{name} vs torch.autograd twin on program {s['prog']} "
                               f"(k={s['k']}): {f['what']}",
                               {"fn": name, "scenario": s, "seed": ctx.seed, "idx": i, "meta": f["meta"]})
+    hostile_cases(ctx)
     ctx.sample({"backward_scenario": {k: scns[0][k] for k in ("prog", "tensors", "inputs", "k", "w")}})
     ctx.sample({"mtl_scenario": {k: mscn[0][k] for k in ("prog", "feats", "losses", "tparams", "shared", "k", "w")}})
